@@ -25,7 +25,11 @@ print("cases",r["correspondence_cases"],"disagreements",r["disagreement_count"],
 print("groups:",collections.Counter(d["group"] for d in r["disagreements"]).most_common(8))
 print("oracles:",collections.Counter(f["oracle"] for f in fails).most_common(8))
 for d in r["disagreements"][:2]: print(" dis:",d)
-for f in fails[:3]: print(" fail:",{k:(v[:400] if isinstance(v,str) else v) for k,v in f.items()})
+# the first two failures of every distinct oracle (a kernel oracle must not hide the (font, gid, ppem, mode) of an outline failure)
+seen=collections.Counter()
+for f in fails:
+    seen[f["oracle"]]+=1
+    if seen[f["oracle"]]<=2: print(" fail:",{k:(v[:400] if isinstance(v,str) else v) for k,v in f.items()})
 PY
 else
   echo "HARNESS-BUILD-FAILED (the check would report harness-build broken, no-failing-input-found)"
